@@ -1,6 +1,6 @@
 """Loaded (through PYTHONPATH) into the meson processes that C09 runs under strace.
 
-It changes nothing in meson: it only makes the names that ``tempfile`` hands out deterministic
+It changes nothing in meson: it only makes the names that ``tempfile`` hands out and the values of ``uuid.uuid4`` deterministic
 (``tmp`` + a per-process counter instead of random characters), so that a temporary file or
 directory a command uses while it rewrites the build directory (``setup --wipe`` parks
 ``cmd_line.txt`` in one) has the same path in the recording run and in every kill run and can be
@@ -31,3 +31,16 @@ if os.environ.get('MESON_VERIF_C09_TMPNAMES'):
         return tempfile._name_sequence
 
     tempfile._get_candidate_names = _get_candidate_names
+
+    # uuid4 as a per-process counter: meson names the private copy of a machine file that was given as a
+    # pipe meson-private/<uuid4>.native.ini; with a fixed name the directory listing order of a later
+    # `--wipe` (and so its unlink order) is the same in the recording run and in every kill run
+    import uuid
+
+    _uuid_count = [0]
+
+    def _uuid4():
+        _uuid_count[0] += 1
+        return uuid.UUID('00000000-0000-4000-8000-%012d' % _uuid_count[0])
+
+    uuid.uuid4 = _uuid4
